@@ -1,5 +1,5 @@
 (* Model.C12Run: executable checkers used by Run/cases_C12.v (no proofs). *)
-From DV Require Import Base.Prelude Model.Persist Model.IDs Gen.Consts.
+From DV Require Import Base.Prelude Model.Persist Model.IDs Model.IDsR Gen.Consts.
 Local Open Scope N_scope.
 
 Inductive c12case :=
@@ -11,7 +11,12 @@ Inductive c12case :=
 (* POST blocks immediately followed by POST nextlabel/1: (largest label just ingested, label handed out) *)
 | CRace (rounds : list (N * N))
 (* version ids and instance ids in the order they were acknowledged, across kills and restarts *)
-| CIds (vids iids : list N).
+| CIds (vids iids : list N)
+(* Round 4: history over the alphabet of the repaired machine (Model.IDsR) with kills INSIDE an ingest
+   (before / after the Puts of its max-label update, before / after its block write) and inside POST
+   maxlabel; outs as in CLab; stored = labels the driver READ BACK from the volume after a restart, each
+   with the number of allocation requests issued before it was read *)
+| CKill (evs : list revent) (outs : list (option (N * N))) (stored : list (N * nat)).
 
 Definition nn_eqb (a b : N * N) : bool := (fst a =? fst b) && (snd a =? snd b).
 
@@ -33,15 +38,34 @@ Fixpoint alloc_outcomes (s : lstate) (evs : list levent) : list (option (N * N))
 Fixpoint served (outs : list (option (N * N))) : list (N * N) :=
   match outs with [] => [] | Some x :: r => x :: served r | None :: r => served r end.
 
+(* the same for the repaired machine *)
+Fixpoint alloc_outcomes_r (s : lstate) (evs : list revent) : list (option (N * N)) :=
+  match evs with
+  | [] => []
+  | e :: r =>
+    let '(s1, o) := rstep s e in
+    match e with
+    | RE (LAlloc _ n) => if n =? 0 then alloc_outcomes_r s1 r else o :: alloc_outcomes_r s1 r
+    | _ => alloc_outcomes_r s1 r
+    end
+  end.
+
 Definition model_ok (c : c12case) : bool :=
   match c with
   | CMut evs ids =>
     list_eqb N.eqb (snd (mrun n_ids_StrideMutationID (m_fresh n_ids_InitialMutationID n_ids_StrideMutationID) evs)) ids
   | CLab evs outs =>
     (* instance created by the repaired code (initial maximum persisted) or as the code stood *)
-    list_eqb oeqb (alloc_outcomes l_fresh evs) outs || list_eqb oeqb (alloc_outcomes l_fresh_unrepaired evs) outs
+    (list_eqb oeqb (alloc_outcomes l_fresh evs) outs || list_eqb oeqb (alloc_outcomes l_fresh_unrepaired evs) outs)
+    (* ... and the machine the all-histories theorems are about answers the same *)
+    && (list_eqb oeqb (alloc_outcomes_r l_fresh (map RE evs)) outs
+        || list_eqb oeqb (alloc_outcomes_r l_fresh_unrepaired (map RE evs)) outs)
   | CRace _ => true
   | CIds _ _ => true
+  | CKill evs outs stored =>
+    (* same answers, and every label read back from the volume is a label the machine counts as present *)
+    list_eqb oeqb (alloc_outcomes_r l_fresh evs) outs
+    && forallb (fun ln : N * nat => existsb (N.eqb (fst ln)) (l_present (fst (rrun l_fresh evs)))) stored
   end.
 
 (* labels known to be in the volume before each allocation of a label history, from the events
@@ -77,6 +101,10 @@ Definition spec_class (c : c12case) : nat :=
     else if fresh_ok evs outs [] then 0%nat else 3%nat
   | CRace rounds => if forallb (fun r : N * N => fst r <? snd r) rounds then 0%nat else 3%nat
   | CIds vids iids => if increasingb vids && increasingb iids then 0%nat else 4%nat
+  | CKill _ outs stored =>
+    if negb (ranges_increasingb 0 (served outs)) then 2%nat
+    else if forallb (fun ln : N * nat => forallb (fun r : N * N => fst ln <? fst r) (served (skipn (snd ln) outs))) stored
+    then 0%nat else 3%nat
   end.
 
 Fixpoint classify_from (i : nat) (l : list c12case) : list (nat * nat) :=
